@@ -26,7 +26,7 @@ import extract  # noqa: E402
 from rstok import ExtractError  # noqa: E402
 
 VERUS_FLAGS = ["--triggers-mode", "silent", "--multiple-errors", "50", "--error-format=json",
-               "--output-json", "--time", "--rlimit", "60"]
+               "--output-json", "--time", "--rlimit", "240"]
 
 
 def sha_tree():
@@ -247,7 +247,7 @@ def compute(tier):
             still = None
             for k in (1, 2):
                 alt = run_verus(os.path.join(cdir, "woven.rs"),
-                                ["--smt-option", "smt.random_seed=%d" % (seed + k), "--rlimit", "120"])
+                                ["--smt-option", "smt.random_seed=%d" % (seed + k), "--rlimit", "480"])
                 f2, _, _ = map_diags(meta, alt["diags"], "woven.rs")
                 still = set(f2) if still is None else (still & set(f2))
             for oid in list(failed):
@@ -512,10 +512,14 @@ def main():
     tool_errors = list(r["tool_errors"])
     if r["lemma_failures"]:
         tool_errors.append("spec lemma failed: " + "; ".join(r["lemma_failures"])[:300])
+    has_table = any(kani_harness_of(o["id"]) for o in mine)
     for h, krec in (r.get("kani") or {}).items():
         if krec.get("error"):
-            tool_errors.append("kani harness %s did not run: %s" % (h, str(krec["error"])[-200:]))
-        elif krec.get("failed") and not any(kani_harness_of(oid) == h for oid in failed):
+            # the cross-check / counterexample is missing; the Verus verdict stands.  Only the thorough tier, whose
+            # claim includes the cross-check, counts this as undecided - and only for properties it serves
+            if tier == "thorough" and has_table:
+                tool_errors.append("kani harness %s did not run: %s" % (h, str(krec["error"])[-200:]))
+        elif has_table and krec.get("failed") and not any(kani_harness_of(oid) == h for oid in failed):
             tool_errors.append("kani harness %s fails although the Verus obligations it cross-checks pass (assumption A-derive "
                                "or the enumeration of states is broken)" % h)
     vac_mine = [v for v in r["vacuity"]["vacuous"] if v.split("/")[0] in fns_of]
